@@ -296,7 +296,7 @@ fn run_case_inner(case: &Case, rep: &mut Report, edges: &mut u64) -> Option<V> {
         // (c)
         match st {
             State::Running => {
-                if (loaded == Some(0x00) || loaded == Some(0x01)) && last_load_first {
+                if loaded == Some(0x00) || loaded == Some(0x01) {
                     return Some(("C05:halt-opcode-ignored".into(), format!("opcode {:#04x} was loaded and the machine keeps running", loaded.unwrap())));
                 }
             }
